@@ -116,7 +116,7 @@ PROPS = {
              "random cepstra rescaled so that |sum_{m>=1} c_m cos(m w~)| <= 2, rates 8k..96k, DFT on 33/65/129/257 frequencies. "
              "class = (order bucket, alpha bucket, rate); non-trivial = non-zero cepstrum beyond c0",
         theorem_clauses=["mc2b and b2mc are mutually inverse for every alpha", "zero coefficients: the MLSA cascade is the identity in every state",
-                         "c0 -> c0+delta shifts only b0 and multiplies the filter input by exp(delta)", "the MLSA cascade is homogeneous: scaling the excitation scales the response (so the response scales with exp(c0))"],
+                         "c0 -> c0+delta shifts only b0 and multiplies the filter input by exp(delta)", "the MLSA cascade is homogeneous: scaling the excitation scales the response (so the response scales with exp(c0))", "with frozen coefficients the MLSA filter is linear and time-invariant: output = excitation convolved with the pulse response"],
         test_clauses=["|ln|H(e^jw)| - sum c_m cos(m w~)| <= 0.01 neper on every bin (Pade approximation error of a concrete rational function)",
                       "response decayed inside the frame"],
         assumptions=[],
@@ -126,7 +126,7 @@ PROPS = {
              "random increasing frequencies with spacing >= pi/(4(order+1)), rates 48k/96k, one frame of rate/20-1 samples; every 4th case with beta>0 "
              "(finite/decaying only). class = (order bucket, parity, stage, alpha, gain kind, beta); spectrum clause evaluated when the truncated tail is < -120 dB",
         theorem_clauses=["repaired lsp2lpc does not read the gain element; head coefficient 1", "gc2gc between equal gamma is truncation",
-                         "ignorm inverts gnorm (given the power law)", "MGLSA = cascade of `stage` sections", "gamma = -1/stage", "well-separated frequencies pass the stability check unchanged", "lsp2lpc = coefficients of (P+Q)/2 for every order"],
+                         "ignorm inverts gnorm (given the power law)", "MGLSA = cascade of `stage` sections", "gamma = -1/stage", "well-separated frequencies pass the stability check unchanged", "lsp2lpc = coefficients of (P+Q)/2 for every order", "with frozen coefficients the MGLSA cascade is linear and time-invariant: output = excitation convolved with the pulse response"],
         test_clauses=["|ln|H| - ln(K/|A(e^{jw~})|^s)| <= 0.001 neper within 100 dB of the peak, A from polynomial multiplication of the LSP factors",
                       "finite, decaying response"],
         assumptions=[],
@@ -160,7 +160,7 @@ PROPS = {
         theorem_clauses=["waveform length = fperiod x sum of durations", "one duration >= 1 per state (speed and alignment paths), F >= labels x states",
                          "MLPG shape on well-formed streams; the GV switch must cover every state (machine-checked counterexample otherwise)",
                          "two-stream configuration never panics (repaired)", "one vocoder frame = fperiod samples", "END TO END totality: for every well-formed engine input (2 or 3 streams, speed or alignment) synthesis returns, every state lasts >= 1 frame, samples = frame_period x F"],
-        test_clauses=["all samples finite inside the stable range; otherwise a non-finite sample only after |x| > 1e150", "three-stream totality", "no panic on every generated case"],
+        test_clauses=["all samples finite inside the stable range; otherwise a non-finite sample only after |x| > 1e150", "no panic on every generated case"],
         assumptions=["well-formedness of the stream tables as the loader produces them"],
     ),
     "C11": dict(
@@ -188,7 +188,7 @@ PROPS = {
         rule="the bundled voice and PDF-perturbed copies (the property's quantifier) with random in-envelope conditions (GV on), 2..6 labels; h in [-24,24] incl. 0, +-12, +-24 and values up "
              "to +-80 that drive the clamp; two engine runs (h and 0) through the hook. class = (voice kind, zero/up/down/clamped); non-trivial = h != 0 with a voiced frame",
         theorem_clauses=["h = 0 is the identity", "static mean -> clamp(m + h*ln2/12), nothing else of the state changes", "voicing mask unchanged", "durations unchanged",
-                         "spectrum and low-pass streams unchanged", "trajectory level: shifting every static mean by h shifts the ML trajectory by exactly h (dynamic windows summing to 0)"],
+                         "spectrum and low-pass streams unchanged", "trajectory level: shifting every static mean by h shifts the ML trajectory by exactly h (dynamic windows summing to 0)", "the shift law also holds through conv_gv and the five adaptive Newton-like GV steps (par_shift)"],
         test_clauses=["log-F0 of every voiced frame moves by h*ln2/12 through MLPG and GV (1e-6) while no state is clamped"],
         assumptions=["shift-equivariance of the ML solution and of the GV iteration is tested, not proved"],
     ),
